@@ -154,7 +154,18 @@ fn read_all_noargs<'a>(o: &mut Obs, env: &Env, d: FontData<'a>, only_small: bool
         o.guarded("payload:cmap_subtable", |o| cmap_subtable(o, &t));
     }
     // AAT lookups and state tables
-    let g16: Vec<u16> = vec![0, 1, 2, 3, 0x7F, 0x80, 0xFF, 0x100, 0x7FFF, 0xFFFE, 0xFFFF];
+    let mut g16: Vec<u16> = vec![0, 1, 2, 3, 0x7F, 0x80, 0xFF, 0x100, 0x7FFF, 0x8000, 0x9C40, 0xC000, 0xFFFE, 0xFFFF];
+    // glyph ids the table itself names (segment firsts / lasts, single glyphs, trimmed-array
+    // bounds all sit in the first words), their neighbours, and ids far enough into a segment
+    // that starts there for the scaled index to cross 32 Ki / 64 Ki bytes
+    for w in d.as_bytes().chunks_exact(2).take(40) {
+        let g = u16::from_be_bytes([w[0], w[1]]);
+        for d in [0u16, 1, 0xFFFF, 16384, 32759, 32768] {
+            g16.push(g.wrapping_add(d));
+        }
+    }
+    g16.sort_unstable();
+    g16.dedup();
     if let Some(t) = ok(o, "aat::LookupU16", aat::LookupU16::read(d)) {
         o.guarded("payload:aat.lookup16", |o| {
             for g in &g16 {
